@@ -208,3 +208,8 @@ package req
 //@ func (*context).SendMsg
 //@   loop 1 invariant !called_since("call:Lock#1", "AddUint32")
 //@   ensures !called_since("call:Lock#1", "AddUint32")
+
+// ---- round 10 (C10 "later calls fail with a closed error"): Send on a closed socket or context ----
+//@ func (*context).SendMsg
+//@   ghost wasclosed = s.closed || c.closed at call:Lock#1
+//@   ensures wasclosed ==> result == protocol.ErrClosed
